@@ -11,6 +11,9 @@ CONSTANTS
   LineRuns <- LRuns
   CurveRuns <- CRuns
   FarJumps = FALSE
+  SweepOnly = FALSE
+  SweepA <- SweepAs
+  SweepB <- SweepBs
   Sim = TRUE
 INIT Init
 NEXT Next
